@@ -344,7 +344,7 @@ def step (glob : String → String → Bool) (dayStr : Nat → String) (c : Cfg)
     else (st.apply c (saveSteps c t r), .done)
   | .saveCrash r t k =>
     if c.readOnly then (st, .assertionError)
-    else (st.apply c ((saveSteps c t r).take k), if k = 0 then .done else .crashed)
+    else (st.apply c ((saveSteps c t r).take k), .crashed)      -- k = 0: the store refused the first put, nothing was written
   | .get id =>
     match getObj st.bucket (fullKey c id) with
     | some o => (st, .found o)
